@@ -25,7 +25,7 @@ def main() -> int:
     ap.add_argument("name")
     ap.add_argument("--checks", default="")
     ap.add_argument("--tests", default="")
-    ap.add_argument("--budget", default="45")
+    ap.add_argument("--budget", default="0")
     ap.add_argument("--tier", default="quick")
     ap.add_argument("--skip-confirm", action="store_true")
     a = ap.parse_args()
@@ -61,7 +61,9 @@ def main() -> int:
                 t = sh("/venv/bin/python -m pytest -q -p no:cacheprovider -n 6 %s 2>&1 | tail -3" % a.tests, env=env, cwd=wt)
                 ran["tests"] = {"cmd": "pytest -n 6 " + a.tests, "tail": t.stdout[-300:]}
         for chk in checks:
-            env2 = dict(os.environ, VSIM_REPO_SRC=os.path.join(wt, "src"), VSIM_NO_SELFTEST="1", VSIM_BUDGET_S=a.budget)
+            env2 = dict(os.environ, VSIM_REPO_SRC=os.path.join(wt, "src"), VSIM_NO_SELFTEST="1")
+            if a.budget not in ("0", ""):
+                env2["VSIM_BUDGET_S"] = a.budget  # 0 = the tier's own budget
             t0 = time.time()
             r = sh([os.path.join(VERIF, "check"), chk, "--tier", a.tier, "--no-evidence"], env=env2)
             viol = [ln for ln in r.stdout.splitlines() if ln.startswith("VIOLATION")]
